@@ -101,7 +101,13 @@ func c05Run(ctx *SeqCtx, opsPrefix []string, rootPrefix string, shards uint, alp
 		tainted := false
 		for i, op := range prog {
 			if op.tag {
-				s = s.Tagged(cloneTags(op.tags))
+				// the caller's map is edited after the call: the scope's identity must not follow it
+				m := cloneTags(op.tags)
+				s = s.Tagged(m)
+				for k := range m {
+					m[k] = "edited-after-the-call"
+				}
+				m["added-after-the-call"] = "x"
 			} else {
 				s = s.SubScope(op.sub)
 			}
